@@ -118,6 +118,52 @@ def option_pairs(ck, recs, only=None, failed_default=()):
     ck.extra["option_pair_records"] = len(fam)
 
 
+RENAME_H = """typedef struct point_s { int x; int y; } point_t;
+typedef enum colour_e { RED, GREEN } colour_t;
+typedef union val_u { int i; float f; } val_t;
+typedef struct node_s node_t;
+struct node_s { node_t *next; point_t at; colour_t c; val_t v; };
+struct uses_s { struct point_s *p; enum colour_e e; union val_u *u; point_t arr[2]; };
+point_t mk_t(colour_t c, struct node_s *n);
+extern point_t origin_t;
+"""
+
+
+def renaming_callbacks(ck, only=None):
+    """ParseCallbacks::item_name that maps several C names onto one Rust name (the usual `foo_s` / `foo_t` pair collapsed to
+    `foo`), and one that prefixes every name: under the enum / alias styles and namespaces, the output must still be one
+    well-formed module (no item twice, no alias of itself)."""
+    wd = os.path.join(ck.wd, "callbacks")
+    os.makedirs(wd, exist_ok=True)
+    hp = os.path.join(wd, "rename.h")
+    open(hp, "w").write(RENAME_H)
+    rows = [("default", []), ("enum-rust", ["--default-enum-style", "rust"]), ("enum-newtype", ["--default-enum-style", "newtype"]), ("enum-module", ["--default-enum-style", "moduleconsts"]),
+            ("alias-newtype", ["--default-alias-style", "new_type"]), ("namespaces", ["--enable-cxx-namespaces"]), ("c-naming", ["--c-naming"]),
+            ("derives", ["--with-derive-default", "--with-derive-hash", "--with-derive-partialeq"])]
+    jobs = []
+    for cbn in ("strip", "rename"):
+        for rn, fl in rows:
+            if only and only.get("callbacks") != f"{cbn}|{rn}":
+                continue
+            jobs.append({"id": f"{cbn}|{rn}", "args": [hp, "--formatter", "prettyplease"] + fl, "callbacks": {cbn: True}})
+    res = common.run_jobs(jobs, wd, timeout=60)
+    for jid, r in res.items():
+        ck.count()
+        ck.nontriv(("callbacks", jid))
+        det = {"callbacks": jid}
+        if r["status"] != "ok":
+            ck.violation(f"renaming-callback {jid} generation-failed", dict(det, why=str(r)[:200]))
+            continue
+        bp = os.path.join(wd, jid.replace("|", "_") + ".rs")
+        open(bp, "w").write("#![allow(warnings)]\n" + r["text"])
+        ok, err = common.rustc_meta(bp)
+        if not ok:
+            msgs = re.findall(r"error(?:\[E\d+\])?: .*", err)
+            sig = signature(msgs)
+            ck.violation(f"renaming-callback {jid} rustc-rejects {sig}", dict(det, predicate=f"{sig}|renaming-callback|{jid}", why=" | ".join(msgs[:4])[:500]))
+    ck.extra["renaming_callback_runs"] = len(jobs)
+
+
 class CxxCase:
     def __init__(self, tag, src, cid):
         self.tag, self._src, self.cid = tag, src, cid
@@ -335,6 +381,8 @@ def run(ck, only=None):
                     sig = signature(msgs)
                     ck.violation(f"{c.cid} alone opt={oname} rustc-rejects {sig}", {"cid": c.cid, "opt": oname, "solo": True, "predicate": f"{sig}|{structure_class(c)}|{oname}",
                                                                                   "source": c.source(), "why": " | ".join(msgs)[:600]})
+    if not only or only.get("callbacks"):
+        renaming_callbacks(ck, only)
     if not only or only.get("pair"):
         option_pairs(ck, recs, only, failed_default)
     ck.sample({"record": fam_c[len(fam_c) // 2].cid if fam_c else None, "cxx": fam_cpp[3].cid if len(fam_cpp) > 3 else None})
